@@ -236,6 +236,8 @@ where
     T: Cowable + ?Sized,
 {
     fn clone(&self) -> Self {
+        #[cfg(metrics_verif)]
+        crate::key::verif_key_hook::point("cow-clone");
         let (ptr, metadata) = T::clone_from_parts(self.ptr, &self.metadata);
         Self { ptr, metadata, _lifetime: PhantomData }
     }
